@@ -20,7 +20,6 @@ variable {α : Type} [DecidableEq α]
 mutual
 def Norm.beq : Norm α → Norm α → Bool
   | .node o1 a1, .node o2 a2 => decide (o1 = o2) && Norm.beqList a1 a2
-  | .tv a, .tv b => decide (a = b)
   | .ellipsis, .ellipsis => true
   | .lit v, .lit w => decide (v = w)
   | .mdata m, .mdata k => decide (m = k)
@@ -38,28 +37,19 @@ theorem Norm.beq_iff : ∀ (a b : Norm α), Norm.beq a b = true ↔ a = b
       constructor
       · rintro ⟨rfl, rfl⟩; rfl
       · intro h; cases h; exact ⟨rfl, rfl⟩
-  | .tv a, .tv b => by simp [Norm.beq]
   | .ellipsis, .ellipsis => by simp [Norm.beq]
   | .lit v, .lit w => by simp [Norm.beq]
   | .mdata m, .mdata k => by simp [Norm.beq]
-  | .node _ _, .tv _ => by simp [Norm.beq]
   | .node _ _, .ellipsis => by simp [Norm.beq]
   | .node _ _, .lit _ => by simp [Norm.beq]
   | .node _ _, .mdata _ => by simp [Norm.beq]
-  | .tv _, .node _ _ => by simp [Norm.beq]
-  | .tv _, .ellipsis => by simp [Norm.beq]
-  | .tv _, .lit _ => by simp [Norm.beq]
-  | .tv _, .mdata _ => by simp [Norm.beq]
   | .ellipsis, .node _ _ => by simp [Norm.beq]
-  | .ellipsis, .tv _ => by simp [Norm.beq]
   | .ellipsis, .lit _ => by simp [Norm.beq]
   | .ellipsis, .mdata _ => by simp [Norm.beq]
   | .lit _, .node _ _ => by simp [Norm.beq]
-  | .lit _, .tv _ => by simp [Norm.beq]
   | .lit _, .ellipsis => by simp [Norm.beq]
   | .lit _, .mdata _ => by simp [Norm.beq]
   | .mdata _, .node _ _ => by simp [Norm.beq]
-  | .mdata _, .tv _ => by simp [Norm.beq]
   | .mdata _, .ellipsis => by simp [Norm.beq]
   | .mdata _, .lit _ => by simp [Norm.beq]
 theorem Norm.beqList_iff : ∀ (a b : List (Norm α)), Norm.beqList a b = true ↔ a = b
@@ -185,7 +175,7 @@ def normalize (W : World α) : Hint α → Norm α
   | .any => anyN                                                 -- _norm_other, ALLOWED_ZERO_PARAMS_ORIGINS
   | .cls a => .node (.obj a) []                                  -- _norm_other, isinstance(origin, type), no params
   | .newType a => .node (.obj a) []                              -- _norm_new_type
-  | .typeVar a _ _ => .tv a                                      -- _norm_type_var (limit: `tvLimit`)
+  | .typeVar a _ _ => .node (.obj a) []                          -- _norm_type_var: NormTV(var) (limit: `tvLimit`)
   | .bare _ a params => .node (.obj a) (implicitList W params)   -- _norm_other, implicit params
   | .app _ a args => .node (.obj a) (normalizeList W args)       -- _norm_other with args
   | .tupleBare _ => .node .tuple [anyN, .ellipsis]               -- _norm_tuple, not subscribed
